@@ -152,6 +152,8 @@ def rich_values():
     sets = st.one_of(
         st.lists(st.integers(-100, 100), max_size=5, unique=True),
         st.lists(st.text(max_size=3), max_size=5, unique=True),
+        # members that cannot be ordered among each other
+        st.sampled_from([[1, "one"], [None, 3, 4], ["a", 2.5, None]]),
     ).map(lambda xs: tag("set", v=xs))
     cplx = st.tuples(finite_floats(), finite_floats()).map(lambda p: tag("complex", v=list(p)))
     nonfinite = st.sampled_from(["nan", "inf", "-inf"]).map(lambda s: tag("float", v=s))
